@@ -801,6 +801,12 @@ func getUID(uid string) (uint32, error) {
 		return 4294967295, nil
 	}
 
+	// Negative values are the signed form of IDs >= 2^31, as printed by
+	// ToCommandLine and auditctl -l.
+	if n, err := strconv.ParseInt(uid, 10, 32); err == nil && n < 0 {
+		return uint32(n), nil
+	}
+
 	v, err := strconv.ParseUint(uid, 10, 32)
 	if err != nil {
 		if !errors.Is(err, strconv.ErrSyntax) {
@@ -822,6 +828,12 @@ func getUID(uid string) (uint32, error) {
 }
 
 func getGID(gid string) (uint32, error) {
+	// Negative values are the signed form of IDs >= 2^31, as printed by
+	// ToCommandLine and auditctl -l.
+	if n, err := strconv.ParseInt(gid, 10, 32); err == nil && n < 0 {
+		return uint32(n), nil
+	}
+
 	v, err := strconv.ParseUint(gid, 10, 32)
 	if err != nil {
 		if !errors.Is(err, strconv.ErrSyntax) {
